@@ -170,6 +170,9 @@ func (s *Scanner) Length() uint {
 	for {
 		lex, ok := s.Next()
 		if !ok {
+			// The whole text belongs to the schema, including a user comment
+			// after the last lexeme - exactly as when other text follows.
+			length = uint(s.dataSize)
 			break
 		}
 
@@ -1250,10 +1253,11 @@ func (s *Scanner) switchToComment() {
 
 func stateAnyCommentStart(s *Scanner, c byte) state {
 	if c != '#' {
-		// any symbol inline user comment
+		// any symbol inline user comment; a line break right after the '#'
+		// ends the (empty) comment like any other inline comment
 		s.annotation = annotationNone
 		s.step = stateInlineComment
-		return scanContinue
+		return stateInlineComment(s, c)
 	} else if s.index < s.dataSize && s.data.Byte(s.index) == '#' { // third #
 		s.annotation = annotationNone
 		s.step = stateMultiLineComment
